@@ -5,6 +5,7 @@ package harness
 // (quick) or two (thorough) deviations from an all-pass and an all-skip base run.
 
 import (
+	"flag"
 	"fmt"
 	"os"
 	"os/exec"
@@ -108,6 +109,62 @@ func c02Units(tier string, seed int64) []Unit {
 			}})
 		}
 	}
+	// a non-fatal signal that lands BETWEEN two test cases: a goroutine started by the k-th test case calls
+	// Errorf/Error/Fail right after that case has been counted as passed (the seam is the verbose log line
+	// "[rapid] test #k OK" on the TB, so the position is exact, not a matter of timing). The test must fail.
+	units = append(units, Unit{Name: "C02/late-signal-between-test-cases", Run: func(c *Ctx) {
+		for _, kind := range []string{"Errorf", "Error()", "Fail"} {
+			for _, k := range []int{1, 2, 5} {
+				for _, checks := range []int{6, 20} {
+					setFlags(Config{Checks: checks, Seed: 11 + uint64(k), ShrinkMS: -1, NoFailFile: true, Verbose: true})
+					release, done := make(chan struct{}), make(chan struct{})
+					htb := &hookTB{FakeTB: NewTB("TestLateSignal")}
+					htb.hook = func(msg string) {
+						if strings.HasPrefix(msg, fmt.Sprintf("[rapid] test #%d OK", k)) {
+							close(release)
+							<-done
+						}
+					}
+					n, signalled := 0, false
+					esc := Guard(func() {
+						rapid.Check(htb, func(t *rapid.T) {
+							n++
+							rapid.Int().Draw(t, "x")
+							if n == k {
+								go func() {
+									defer close(done)
+									<-release
+									signalled = true
+									switch kind {
+									case "Errorf":
+										t.Errorf("late signal from the goroutine of test case %d", k)
+									case "Error()":
+										t.Error()
+									default:
+										t.Fail()
+									}
+								}()
+							}
+						})
+					})
+					flag.Set("rapid.v", "false")
+					c.R.Evals++
+					c.R.States++
+					c.R.Transitions += int64(n)
+					c.Outcome(fmt.Sprintf("late %s k=%d checks=%d failed=%v invocations=%d", kind, k, checks, htb.IsFail, n), true)
+					if esc != nil {
+						c.Violate(Violation{Sig: "C02 late-signal escaped-panic", Detail: fmt.Sprint(esc)})
+					} else if !signalled {
+						c.Violate(Violation{Sig: "C02 late-signal harness-never-signalled", Detail: fmt.Sprintf("kind=%s k=%d: the seam line was not logged", kind, k)})
+					} else if !htb.IsFail {
+						c.Violate(Violation{Sig: "C02 lost-falsification kind=" + kind + " ctx=goroutine-between-test-cases",
+							Detail: fmt.Sprintf("test case %d started a goroutine that called %s after the case was counted and before the next one began; Check passed: %s", k, kind, trunc(htb.LogText(), 400)),
+							Replay: map[string]any{"engine": "late-signal", "kind": kind, "k": k, "checks": checks}})
+					}
+				}
+			}
+		}
+	}})
 	// the same matrix cell "panic(nil)" under GODEBUG=panicnil=1 - the default of every main module whose go.mod
 	// says go 1.20 or older (rapid's own included): recover() then returns nil for it. Run in a subprocess,
 	// because the setting is read when the process starts.
@@ -210,4 +267,18 @@ func init() {
 		Units:       c02Units,
 		Budget:      map[string]time.Duration{"quick": 50 * time.Second, "thorough": 15 * time.Minute},
 	})
+}
+
+// hookTB is a FakeTB whose Logf also calls a hook with the formatted line (a deterministic seam between test cases).
+type hookTB struct {
+	*FakeTB
+	hook func(string)
+}
+
+func (h *hookTB) Logf(format string, args ...any) {
+	msg := fmt.Sprintf(format, args...)
+	h.FakeTB.Logf("%s", msg)
+	if h.hook != nil {
+		h.hook(msg)
+	}
 }
